@@ -6,8 +6,11 @@ repeat = jump to the address after the back jump, `repeat with ... in` through p
 text is read back by the Lean reference reader.
   D per handler: read-back tree == source tree (every statement once, in order, in the same construct, same condition / loop variable /
   bounds); recompiled bytecode == original; number of raw `jz` / `jump` pseudo-statement lines == 0.
-Exhaustive: every skeleton with <= 3 compound constructs and one-item bodies, every skeleton with <= 2 compound constructs and bodies of
-<= 2 items (quick); <= 5 / one-item and <= 3 / two-item bodies (thorough); every legal exit-repeat position.
+Exhaustive: every skeleton with <= 3 compound constructs and bodies of 0..1 items, every skeleton with <= 2 compound constructs and bodies
+of 0..2 items (quick); <= 5 / one-item, <= 4 / 0..1 items and <= 3 / two-item bodies (thorough); every legal exit-repeat position.
+Protocol look-alikes: `repeat while` loops whose init / comparison / step (or `1 <= count(l)` / `getAt(l, 1)`) resemble `repeat with`
+(`repeat with ... in`), all combinations; exactly the one combination that is byte-identical to a `repeat with` is expected back in
+the canonical form (lean/Drx/Spec/Supported.lean `isWithLike`), all others must stay `repeat while` (F134-F136, fixed).
 """
 import json, os, random
 from core import Case, canon, Failure
@@ -38,6 +41,15 @@ GROUP = 16     # scripts per case (one driver call per case in impl; every scrip
 def build_cases(scripts, group=GROUP):
     lines = [L.gen_line(sx(s["tree"]), s.get("pre", ()), 0) for s in scripts]
     outs = L.ask_parallel(lines)
+    # canonical forms of the handlers that contain the repeat-while spelling of a repeat-with (one batched driver call)
+    cn = []
+    for s in scripts:
+        for h in s["tree"][4:]:
+            hc = h[:3] + L.c03_canon(h[3:])
+            if hc != h:
+                cn.append(sx(hc))
+    cn = sorted(set(cn))
+    canon_sx = dict(zip(cn, L.ask_parallel([f"lspec hcanon {L.hexs(c)}" for c in cn]))) if cn else {}
     units, rejected = [], 0
     for s, o in zip(scripts, outs):
         g = L.parse_gen(o)
@@ -49,11 +61,19 @@ def build_cases(scripts, group=GROUP):
         lines_c, expect = [], []
         for h, (hsx, hcode) in zip(handlers, g["handlers"]):
             hh = L.hexs(sx(h))
-            lines_c.append(f"lspec hcanon {hh}"); expect.append(hsx)
+            hc = h[:3] + L.c03_canon(h[3:])
+            if hc != h:
+                # the repeat-while spelling of a repeat-with: the expected tree is the canonical one, the expected CODE stays the
+                # source's own (so the comparison of the recompiled read-back also checks that the two spellings are byte-identical)
+                hsx = canon_sx[sx(hc)]
+                lines_c.append(f"lspec hcanon {L.hexs(sx(hc))}"); expect.append(hsx)
+            else:
+                lines_c.append(f"lspec hcanon {hh}"); expect.append(hsx)
             lines_c.append(f"lspec hcode {L.hexs(g['names_sx'])} {L.hexs(hn)} {hh}"); expect.append(hcode)
             lines_c.append("lspec const 0"); expect.append("0")
         unit = dict(script=sx(s["tree"]), lscr=g["lscr"], lnam=g["lnam"], names_sx=g["names_sx"], nhandlers=len(handlers),
-                    classes=[L.c03_classes(h[3:]) for h in handlers], skel=s.get("skel"), hsx=[sx(h) for h in handlers])
+                    classes=[L.c03_classes(h[3:]) for h in handlers], withlike=[L.c03_has_withlike(h[3:]) for h in handlers],
+                    skel=s.get("skel"), hsx=[sx(h) for h in handlers])
         units.append((s.get("kind", "skel"), unit, lines_c, expect))
     cases = []
     by_kind = {}
@@ -71,10 +91,10 @@ def build_cases(scripts, group=GROUP):
     return cases, rejected
 
 
-def skeleton_scripts(kmax, maxlen, kind, skip_dead=False, sample=None, rng=None):
+def skeleton_scripts(kmax, maxlen, kind, skip_dead=False, sample=None, rng=None, empties=False):
     """exit-free skeletons are batched 8 per script; skeletons with an exit repeat get a script of their own"""
     free, withx = [], []
-    for sk in L.skeletons(kmax, maxlen):
+    for sk in L.skeletons(kmax, maxlen, empties):
         if skip_dead and has_dead_code(sk):
             continue
         (withx if L.skel_has_exit(sk) else free).append(sk)
@@ -149,6 +169,8 @@ class RandCF:
                 out.append("exitrep")
             else:
                 out.append(self.simple(env))
+        if getattr(self, "empty_ok", False):
+            return out
         return out or [self.simple(env)]
 
     def compound(self, env, depth, in_loop, width, allow_exit):
@@ -157,7 +179,9 @@ class RandCF:
         if k == "if":
             return ["if", self.cond(env), self.body(env, depth, in_loop, width, allow_exit), []]
         if k == "ifelse":
-            return ["if", self.cond(env), self.body(env, depth, in_loop, width, allow_exit), self.body(env, depth, in_loop, width, allow_exit)]
+            t = self.body(env, depth, in_loop, width, allow_exit)
+            e = self.body(env, depth, in_loop, width, allow_exit)
+            return ["if", self.cond(env), t, e or [self.simple(env)]]     # an empty else branch IS the if without else
         self.loops += 1
         v = r.choice([["l", "i%d" % self.loops], ["l", "i%d" % self.loops], ["g", "gIdx"], ["p", "a"]])
         b = self.body(env, depth, True, width, allow_exit)
@@ -206,6 +230,97 @@ def long_body_scripts(rng, n):
     return out
 
 
+def protocol_scripts(rng, tier):
+    """`repeat while` loops whose first / last statements resemble the protocols of `repeat with` (init, comparison, step) and of
+    `repeat with ... in` (1 <= count(l), getAt(l, 1)): every combination of the ingredients below. Exactly one combination per loop
+    variable is byte-identical to a `repeat with` (expected read-back: the canonical form); all others must stay `repeat while`."""
+    g = RandCF(rng)
+    put = lambda: ["call", "put", ["i", g.num()]]
+    out = []
+    hs = []
+    def flush(kind):
+        nonlocal hs
+        for i in range(0, len(hs), 8):
+            out.append(script_of([["on", "h%d" % j, ["a"]] + b for j, b in enumerate(hs[i:i + 8])], kind=kind))
+        hs = []
+    vars_ = [["l", "i"], ["g", "gIdx"], ["p", "a"]] if tier == "quick" else [["l", "i"], ["g", "gIdx"], ["p", "a"], ["l", "x"]]
+    other = ["l", "j"]
+    steps = [["i", 1], ["i", 2], ["i", 7], ["i", 0], ["i", 255], ["u", "neg", ["i", 1]], ["l", "k"], ["f", 10, 1]]
+    for v in vars_:
+        for op in ["le", "lt", "ge", "gt", "eq", "ne"]:
+            for st in steps:
+                for form in ["k+v", "v+k", "k-v", "k+w", "w=k+v"]:
+                    for wrap in ["top", "if", "loop"]:
+                        if tier == "quick" and wrap != "top" and (op not in ("le", "ge") or form != "k+v"):
+                            continue
+                        for extra in [0, 1]:
+                            inc = {"k+v": ["set", v, ["b", "add", st, v]], "v+k": ["set", v, ["b", "add", v, st]],
+                                   "k-v": ["set", v, ["b", "sub", st, v]], "k+w": ["set", v, ["b", "add", st, other]],
+                                   "w=k+v": ["set", other, ["b", "add", st, v]]}[form]
+                            loop = ["while", ["b", op, v, ["i", g.num() + 10]]] + [put() for _ in range(extra)] + [inc]
+                            seq = [["set", v, ["i", 1]], loop]
+                            if wrap == "if":
+                                seq = [["if", ["b", "lt", ["l", "c"], ["i", g.num()]], seq, []]]
+                            elif wrap == "loop":
+                                seq = [["while", ["b", "ne", ["l", "c"], ["i", g.num()]]] + seq]
+                            hs.append(seq)
+    # init variants: no init, init of another variable, init not adjacent, condition with the variable on the right
+    for v in vars_:
+        inc = ["set", v, ["b", "add", ["i", 1], v]]
+        loopc = lambda: ["while", ["b", "le", v, ["i", g.num() + 10]], put(), inc]
+        hs.append([loopc()])
+        hs.append([["set", other, ["i", 1]], loopc()])
+        hs.append([["set", v, ["i", 1]], put(), loopc()])
+        hs.append([["set", v, ["i", 1]], ["while", ["b", "ge", ["i", g.num() + 10], v], put(), inc]])
+        hs.append([["set", v, ["i", 1]], ["while", ["b", "le", v, ["i", g.num() + 10]], inc, put()]])
+        hs.append([["set", v, ["i", 1]], ["while", ["b", "le", v, ["i", g.num() + 10]], put(), inc, "exitrep"]])
+        hs.append([["set", v, ["i", 1]], ["while", ["b", "le", v, ["i", g.num() + 10]], ["if", ["b", "lt", ["l", "c"], ["i", g.num()]], ["exitrep"], []], inc]])
+        hs.append([["set", v, ["i", 1]], ["while", ["b", "le", v, ["i", g.num() + 10]], inc], ["set", v, ["i", 1]], loopc()])
+        hs.append([["set", v, ["b", "add", v, ["i", 1]]], loopc()])
+        if v[0] == "l":
+            hs.append([["put", "after", ["i", 1], v], loopc()])
+        hs.append([["set", v, ["i", 1]], ["with", v, ["i", 1], ["i", g.num() + 10], "up", put()]])
+        hs.append([["set", v, ["i", 1]], ["while", ["b", "le", v, ["i", g.num() + 10]], ["with", other, ["i", 1], ["i", 3], "up", put()], inc]])
+    flush("protocol-with")
+    # repeat with ... in
+    lists = [["l", "lst"], ["g", "gList"], ["p", "a"], ["li", ["i", 1], ["i", 2]], ["c", "getList", ["i", 3]]]
+    x = ["l", "x"]
+    for l in lists:
+        for k in [1, 2, 0]:
+            for op in ["le", "lt", "ge"]:
+                for first in ["getAt-l-1", "getAt-l-2", "getAt-m-1", "none", "second", "other-fn", "swapped"]:
+                    for extra in [0, 1]:
+                        if tier == "quick" and (k, op) != (1, "le") and first not in ("getAt-l-1", "none"):
+                            continue
+                        m = ["l", "lst2"]
+                        fst = {"getAt-l-1": [["set", x, ["c", "getAt", l, ["i", 1]]]], "getAt-l-2": [["set", x, ["c", "getAt", l, ["i", 2]]]],
+                               "getAt-m-1": [["set", x, ["c", "getAt", m, ["i", 1]]]], "none": [],
+                               "second": [put(), ["set", x, ["c", "getAt", l, ["i", 1]]]],
+                               "other-fn": [["set", x, ["c", "getaProp", l, ["i", 1]]]],
+                               "swapped": [["set", x, ["c", "getAt", ["i", 1], l]]]}[first]
+                        body = fst + [put() for _ in range(extra)]
+                        hs.append([["while", ["b", op, ["i", k], ["c", "count", l]]] + body])
+        hs.append([["in", x, l, ["set", x, ["c", "getAt", l, ["i", 1]]], put()]])
+        hs.append([["in", x, l, ["while", ["b", "le", ["i", 1], ["c", "count", l]], ["set", x, ["c", "getAt", l, ["i", 1]]], put()]]])
+        hs.append([["in", x, l]])
+    flush("protocol-in")
+    # property script: the list / loop variable is a declared property
+    return out
+
+
+def empty_body_scripts(rng, n):
+    """random programs in which every body (then, else when the then-branch is not the only content, loops, tell) may be empty"""
+    out = []
+    for i in range(n):
+        g = RandCF(rng)
+        g.empty_ok = True
+        env = dict(locals=["c", "x", "lst"])
+        allow_exit = rng.random() < 0.3
+        body = g.body(env, rng.choice([2, 3, 4]), False, [0, 1, 1, 2], allow_exit)
+        out.append(script_of([["on", "h0", ["a"]] + body], kind="empty-bodies" + ("-exit" if allow_exit else "")))
+    return out
+
+
 PROBES = {
     "f23_exit_directly_in_loop": ["on", "probe", [], ["while", ["b", "ne", ["l", "c"], ["i", 1]], ["call", "put", ["i", 2]], "exitrep"]],
     "f24_if_after_exit_if": ["on", "probe", [], ["while", ["b", "ne", ["l", "c"], ["i", 1]], ["if", ["b", "lt", ["l", "c"], ["i", 2]], ["exitrep"], []],
@@ -215,6 +330,19 @@ PROBES = {
     "f126_exit_first_of_three_in_then": ["on", "probe", [], ["while", ["b", "ne", ["l", "c"], ["i", 1]],
                                                            ["if", ["b", "lt", ["l", "c"], ["i", 2]], ["exitrep", ["call", "put", ["i", 3]], ["call", "put", ["i", 4]]], []]]],
 }
+
+
+_put = lambda n: ["call", "put", ["i", n]]
+_i, _x, _l = ["l", "i"], ["l", "x"], ["l", "lst"]
+PROBES.update({
+    "f133_empty_then_branch": ["on", "probe", [], ["if", ["b", "lt", ["l", "c"], ["i", 2]], [], []]],
+    "f134_step_7_is_not_repeat_with": ["on", "probe", [], ["set", _i, ["i", 1]], ["while", ["b", "le", _i, ["i", 5]], _put(1), ["set", _i, ["b", "add", ["i", 7], _i]]]],
+    "f135_gt_is_not_repeat_with": ["on", "probe", [], ["set", _i, ["i", 1]], ["while", ["b", "gt", _i, ["i", 5]], _put(1), ["set", _i, ["b", "add", ["i", 1], _i]]]],
+    "f136_getAt_1_is_not_repeat_in": ["on", "probe", [], ["while", ["b", "le", ["i", 1], ["c", "count", _l]], ["set", _x, ["c", "getAt", _l, ["i", 1]]], _put(1)]],
+    "withlike_canonical_form": ["on", "probe", [], ["set", _i, ["i", 1]], ["while", ["b", "le", _i, ["i", 5]], _put(1), ["set", _i, ["b", "add", ["i", 1], _i]]]],
+    "empty_bodies_everywhere": ["on", "probe", [], ["if", ["b", "lt", ["l", "c"], ["i", 2]], [], [["while", ["b", "lt", ["l", "c"], ["i", 3]]]]],
+                                ["with", _i, ["i", 1], ["i", 5], "up"], ["in", _x, _l], ["with", _i, ["i", 5], ["i", 1], "down", ["if", ["b", "lt", ["l", "c"], ["i", 4]], [], []]]],
+})
 
 
 def mkcorpus():
@@ -231,15 +359,18 @@ def mkcorpus():
 def cases(rng, tier):
     scripts = []
     if tier == "quick":
-        scripts += skeleton_scripts(3, 1, "skel-k3-len1")
-        scripts += skeleton_scripts(2, 2, "skel-k2-len2")
+        scripts += skeleton_scripts(3, 1, "skel-k3-len01", empties=True)          # bodies of 0..1 items (superset of 1..1)
+        scripts += skeleton_scripts(2, 2, "skel-k2-len02", empties=True)
         scripts += [s for s in skeleton_scripts(3, 2, "skel-k3-len2-sample", skip_dead=True, sample=1500, rng=rng) if s["kind"].endswith("exit")]
         scripts += random_scripts(rng, 500) + long_body_scripts(rng, 30)
+        scripts += protocol_scripts(rng, tier) + empty_body_scripts(rng, 300)
     else:
         scripts += skeleton_scripts(5, 1, "skel-k5-len1")
+        scripts += skeleton_scripts(4, 1, "skel-k4-len01", empties=True)
         scripts += skeleton_scripts(3, 2, "skel-k3-len2", skip_dead=True)
-        scripts += skeleton_scripts(2, 2, "skel-k2-len2")
+        scripts += skeleton_scripts(2, 2, "skel-k2-len02", empties=True)
         scripts += random_scripts(rng, 20000 if tier == "thorough" else 8000) + long_body_scripts(rng, 300)
+        scripts += protocol_scripts(rng, tier) + empty_body_scripts(rng, 6000)
     # corpus replays are single-script cases (core prepends them)
     cs, rejected = build_cases(scripts)
     cases.rejected = rejected
@@ -330,12 +461,13 @@ def extra_stage(ctx, driver, stats):
     outs = L.ask_parallel(["lspec classes " + L.hexs(u["hsx"][i]) for u, i in hs])
     lean_disagree = 0
     for (u, i), o in zip(hs, outs):
-        want = ",".join(sorted(u["classes"][i])) or "-"
+        want = ",".join(sorted(u["classes"][i]) + (["withlike"] if u.get("withlike", [False] * (i + 1))[i] else [])) or "-"
         if o != want:
             lean_disagree += 1
             if lean_disagree <= 3:
                 ctx.failures.append(Failure("C", None, None, f"Lean Supported predicate disagrees with the matcher: lean={o} python={want} on {u['hsx'][i][:300]}"))
-    ctx.cov["supported_predicate"] = dict(handlers=len(hs), lean_vs_matcher_disagreements=lean_disagree)
+    ctx.cov["supported_predicate"] = dict(handlers=len(hs), lean_vs_matcher_disagreements=lean_disagree,
+                                          repeat_while_spelling_of_repeat_with=sum(1 for u, i in hs if u.get("withlike", [False] * (i + 1))[i]))
     ctx.cov["class_prediction"] = dict(handlers_reconstructed_exactly=ok, in_class_and_failing=pred_fail, in_class_but_exact=pred_pass,
                                        failing_outside_every_class=unpred_fail, in_class_but_exact_examples=stale)
     if pred_pass:
